@@ -160,6 +160,23 @@ func c04Struct(c *Ctx) {
 				}
 			}
 		}
+		if !zeroLoop {
+			// the fill may live in a helper that receives the buffer
+			for _, b := range blocksWithCallees(fn) {
+				for _, in := range b.Instrs {
+					st, ok := in.(*ssa.Store)
+					if !ok || !inAnyLoop(b) {
+						continue
+					}
+					if _, isIdx := st.Addr.(*ssa.IndexAddr); !isIdx {
+						continue
+					}
+					if k, isC := core.ConstInt(st.Val); isC && k == 0 {
+						zeroLoop = true
+					}
+				}
+			}
+		}
 		n++
 		r.Add("STRUCT.zero", name, "padding octets are written as zero in a loop", p.Position(fn.Pos()), zeroLoop, "no loop storing 0 into buf: padding keeps the previous buffer contents")
 	}
